@@ -1,0 +1,50 @@
+//go:build verif
+
+package kernel
+
+import (
+	"github.com/MixinNetwork/mixin/crypto"
+	"github.com/MixinNetwork/mixin/storage"
+)
+
+// Verification hooks for the round check C18: the live node's loaders of a
+// round from the store (node start / restart).  Thin wrappers only: the rounds
+// are loaded and hashed by the unmodified kernel code.
+
+// VerifC18LoadHeadRound is loadHeadRoundForNode.
+func VerifC18LoadHeadRound(store storage.Store, nodeId crypto.Hash) (*CacheRound, error) {
+	return loadHeadRoundForNode(store, nodeId)
+}
+
+// VerifC18LoadFinalRound is loadFinalRoundForNode.
+func VerifC18LoadFinalRound(store storage.Store, nodeId crypto.Hash, number uint64) (*FinalRound, error) {
+	return loadFinalRoundForNode(store, nodeId, number)
+}
+
+// VerifC18LoadRoundHistory is loadRoundHistoryForNode.
+func VerifC18LoadRoundHistory(store storage.Store, to *FinalRound) []*FinalRound {
+	return loadRoundHistoryForNode(store, to)
+}
+
+// VerifC18AsFinal is CacheRound.asFinal.
+func (c *CacheRound) VerifC18AsFinal() *FinalRound {
+	return c.asFinal()
+}
+
+// VerifC18LoadChainState runs Chain.loadState (what a starting node does for
+// every chain) for chain nodeId of a bare node over store and returns the head
+// round, the final round and the round history it installed.  All nil when the
+// store has no round of that node.
+func VerifC18LoadChainState(store storage.Store, nodeId crypto.Hash) (*CacheRound, *FinalRound, []*FinalRound, error) {
+	node := &Node{
+		IdForNetwork: nodeId,
+		chains:       &chainsMap{m: make(map[crypto.Hash]*Chain)},
+		persistStore: store,
+	}
+	chain := &Chain{node: node, ChainId: nodeId, persistStore: store}
+	err := chain.loadState()
+	if err != nil || chain.State == nil {
+		return nil, nil, nil, err
+	}
+	return chain.State.CacheRound, chain.State.FinalRound, chain.State.RoundHistory, nil
+}
